@@ -24,6 +24,16 @@
    queue when it starts, in FIFO order; handles created meanwhile run at the
    next Yield.
 
+   PREPARERS ARE ATOMIC in this model (hypothesis of every theorem; koreo's own
+   preparers contain no await that suspends).  Consequently the guard added to
+   _reprepare_and_update_cache in /repo 033ed5d (`if __CACHE.get(resource_key)
+   is not cached: return` after `await preparer(...)`) never fires here: nothing
+   can replace or delete the entry between the read and the write-back, so the
+   model has no counterpart for it.  Preparation that takes loop turns is
+   covered by two oracle-only streams of harness/props/C16.py (slow background
+   re-preparations; the real prepare_workflow under concurrent offers), not by
+   the model.
+
    ITERATION ORDER OF PYTHON SETS.  notify_subscribers iterates over the set
    _RESOURCE_SUBSCRIBERS[notifier]; the order decides in which order the
    subscribers' monitors are woken, which is observable.  It is a parameter of
